@@ -1,8 +1,8 @@
 #!/usr/bin/env python3
 """Development helper: keep a confirmed seeded change under /verif/seeded/<seed id>/."""
 import json, os, shutil, sys
-prop, seed_id, needs, detected = sys.argv[1], sys.argv[2], sys.argv[3], sys.argv[4]
-src = f"/tmp/seed/{prop}"
+prop, tag, seed_id, needs, detected = sys.argv[1:6]
+src = f"/tmp/seed/{prop}{tag}"
 dst = f"/verif/seeded/{seed_id}"
 os.makedirs(dst, exist_ok=True)
 shutil.copy(f"{src}/patch.diff", f"{dst}/patch.diff")
